@@ -401,7 +401,20 @@ const INT_LATTICE: [u64; 26] = [
     0xffff_ffff_ffff_ffff,
 ];
 
+/// Numbers that mean something in the protocols (defaults, limits, sizes used by transports and
+/// platforms): code that special-cases a value special-cases one of these.
+const SIGNIFICANT: [u64; 40] = [
+    1, 2, 3, 4, 5, 6, 7, 8, 9, 10, 12, 16, 20, 32, 48, 63, 64, 65, 72, 77, 80, 100, 128, 200, 255, 256, 300, 512, 676, 1000,
+    1024, 1200, 2048, 3008, 3072, 4096, 7609, 8192, 10000, 65535,
+];
+
 pub fn gen_uint(rng: &mut Rng, max: u64) -> u64 {
+    if rng.chance(1, 5) {
+        let c: Vec<u64> = SIGNIFICANT.iter().cloned().filter(|x| *x <= max).collect();
+        if !c.is_empty() {
+            return *rng.pick(&c);
+        }
+    }
     match rng.below(4) {
         0 => {
             let c: Vec<u64> = INT_LATTICE.iter().cloned().filter(|x| *x <= max).collect();
@@ -477,7 +490,10 @@ pub fn gen_bytes_content(rng: &mut Rng, n: usize) -> Vec<u8> {
     b
 }
 
-const SPECIAL_TEXTS: [&str; 28] = [
+const SPECIAL_TEXTS: [&str; 44] = [
+    "data:image/png;base64,iVBORw0KGgo=", "data:,", "data:image/svg+xml;utf8,<svg/>", "https://example.com/icon.png",
+    "http://icon.png", "file:///etc/passwd", "javascript:alert(1)", "mailto:user@example.com", "user@example.com",
+    "\u{feff}John", "John\u{feff}", " leading", "trailing ", "UPPER", "\u{202e}rtl", "null",
     "id", "name", "type", "icon", "url", "displayName", "public-key", "rk", "up", "uv", "alg", "hmac-secret", "credProtect",
     "largeBlobKey", "thirdPartyPayment", "packed", "none", "example.com", "localhost", "https://example.com/a?b=c#d",
     "a b", "a\u{0}b", "\"quoted\"", "a/b:c.d@e", "\u{feff}bom", "xn--caf-dma.example", "*.example.com", ".",
